@@ -46,8 +46,110 @@ def _strip_comments(src):
     return re.sub(r"//[^\n]*", "", src)
 
 
+# ------------------------------------------------------------------------------------------------
+# Fail closed: everything of the modelled sources that is *not* table data must have exactly the
+# shape this extractor (and the hand-written model) understands.  The comment-stripped sources, with
+# the table data replaced by placeholders, are compared token for token (whitespace-insensitive)
+# with tools/gen_units.skeleton.txt.  An unknown `impl Convert`, a new macro, an edited `convert`
+# body, a new `MetricValue` impl in primitive.rs, … all change the skeleton and fail the tie
+# (`T-gen:units` → VIOLATION … no-failing-input-found unless the engine finds an input).
+# After reviewing such a change (and updating Model/Units.lean), refresh the skeleton with
+#   VERIF_UNITS_ACCEPT_SKELETON=1 python3 tools/extract_consts.py units
+
+def _non_test(src):
+    return _strip_comments(re.split(r"#\[cfg\(test\)\]\s*mod tests", src)[0])
+
+
+def _block_from(src, start_re, what):
+    """text from the match of start_re to the brace that closes the first `{` after it"""
+    m = _need(re.search(start_re, src), what)
+    i = src.index("{", m.start())
+    depth, j = 0, i
+    while True:
+        if src[j] == "{": depth += 1
+        elif src[j] == "}":
+            depth -= 1
+            if depth == 0: break
+        j += 1
+    return src[m.start():j + 1]
+
+
+def _sub_once(src, pattern, repl, what, count=1, flags=re.S):
+    out, n = re.subn(pattern, repl, src, flags=flags)
+    if n != count:
+        raise RuntimeError(f"units: expected {count} occurrence(s) of {what}, found {n}")
+    return out
+
+
+def _skeleton():
+    sections = []
+    unit = _non_test(open(os.path.join(REPO, "metrique-writer-core/src/unit.rs")).read())
+    # table data → placeholders (the data itself goes to Generated/Units.lean and is checked by theorems)
+    arms = r"(?:\s*Self::\w+\s*=>\s*[\d_]+\s*,)+\s*"
+    unit = _sub_once(unit, r"(pub const fn reduction_factor\(self\) -> u64 \{\s*match self \{)" + arms + r"(\})", r"\1<ARMS>\2", "reduction_factor arms")
+    unit = _sub_once(unit, r"(pub const fn expansion_factor\(self\) -> u64 \{\s*match self \{)" + arms + r"(\})", r"\1<ARMS>\2", "expansion_factor arms")
+    unit = _sub_once(unit, r"(\ntime_unit_tag!\s*\{)(?:\s*\w+\s*,\s*\w+\s*,\s*\w+\s*;)+\s*(\})", r"\1<ROWS>\2", "time_unit_tag! rows")
+    unit = _sub_once(unit, r"(\nbit_unit_tag!\s*\{)(?:\s*\w+\s*,\s*\w+\s*,\s*\w+\s*,\s*[\d_]+\s*,\s*\w+\s*;)+\s*(\})", r"\1<ROWS>\2", "bit_unit_tag! rows")
+    unit, n = re.subn(r"\nunit_tag!\(\w+,\s*\w+,\s*Unit::\w+\);", "\nunit_tag!(<ROW>);", unit)
+    if n == 0: raise RuntimeError("units: no plain unit_tag! invocation")
+    unit = re.sub(r"(\nunit_tag!\(<ROW>\);)+", "\nunit_tag!(<ROW>);*", unit)
+    unit = _sub_once(unit, r"const RATIO: f64 = \(\w+::FROM_SECONDS as f64\)\s*/\s*\(\w+::FROM_SECONDS as f64\);", "const RATIO: f64 = <TIME-RATIO>;", "time RATIO")
+    unit = _sub_once(unit, r"const RATIO: f64 = \(\w+::FROM_BITS as f64\)\s*/\s*\(\w+::FROM_BITS as f64\);", "const RATIO: f64 = <BIT-RATIO>;", "bit RATIO")
+    unit = _sub_once(unit, r"(impl<U: UnitTag> Convert<U> for None \{\s*const RATIO: f64 = )[\d._]+;", r"\1<LIT>;", "None RATIO")
+    # Unit::name: the strings are data, the arms are shape
+    name = _block_from(unit, r"pub const fn name\(self\) -> &'static str", "Unit::name")
+    unit = unit.replace(name, re.sub(r'"[^"]*"', '"<S>"', name))
+    sections.append(("metrique-writer-core/src/unit.rs", unit))
+
+    prim = _non_test(open(os.path.join(REPO, "metrique-writer-core/src/value/primitive.rs")).read())
+    sections.append(("metrique-writer-core/src/value/primitive.rs", prim))
+
+    vmod = _non_test(open(os.path.join(REPO, "metrique-writer-core/src/value/mod.rs")).read())
+    for start, what in [(r"pub trait ValueWriter: Sized", "trait ValueWriter"),
+                        (r"pub enum Observation", "enum Observation"),
+                        (r"impl Value for Observation", "impl Value for Observation"),
+                        (r"impl MetricValue for Observation", "impl MetricValue for Observation"),
+                        (r"pub trait MetricValue: Value", "trait MetricValue"),
+                        (r"impl<T: Value> Value for Option<T>", "impl Value for Option"),
+                        (r"impl<T: MetricValue> MetricValue for Option<T>", "impl MetricValue for Option")]:
+        sections.append(("metrique-writer-core/src/value/mod.rs: " + what, _block_from(vmod, start, what)))
+
+    dist = _non_test(open(os.path.join(REPO, "metrique-writer/src/value/distribution.rs")).read())
+    sections.append(("metrique-writer/src/value/distribution.rs", dist))
+
+    lib = _strip_comments(open(os.path.join(REPO, "metrique/src/lib.rs")).read())
+    sections.append(("metrique/src/lib.rs: mod unit", _block_from(lib, r"pub mod unit \{", "metrique::unit")))
+    mac = _strip_comments(open(os.path.join(REPO, "metrique-macro/src/lib.rs")).read())
+    sections.append(("metrique-macro/src/lib.rs: entry_field", _block_from(mac, r"fn entry_field\(&self, named: bool\)", "MetricsField::entry_field")))
+    sections.append(("metrique-macro/src/lib.rs: unit", _block_from(mac, r"fn unit\(&self\) -> Option<&syn::Path>", "MetricsField::unit")))
+
+    out = []
+    for title, text in sections:
+        out.append("### " + title)
+        # one token run per line keeps diffs readable; whitespace is not significant
+        out.append("\n".join(" ".join(l.split()) for l in text.split("\n") if l.strip()))
+    return "\n".join(out) + "\n"
+
+
+def _check_skeleton():
+    path = os.path.join(ROOT, "tools", "gen_units.skeleton.txt")
+    cur = _skeleton()
+    if os.environ.get("VERIF_UNITS_ACCEPT_SKELETON") == "1":
+        open(path, "w").write(cur)
+        return
+    if not os.path.exists(path):
+        raise RuntimeError("units: tools/gen_units.skeleton.txt is missing")
+    want = open(path).read()
+    norm = lambda t: re.sub(r"\s+", "", t)
+    if norm(cur) != norm(want):
+        import difflib
+        d = [l for l in difflib.unified_diff(want.split("\n"), cur.split("\n"), "understood", "current", n=1, lineterm="")]
+        raise RuntimeError("units: the source has a shape the extractor/model does not understand (fail closed):\n" + "\n".join(d[:40]))
+
+
 @group("units")
 def gen_units():
+    _check_skeleton()
     raw = open(os.path.join(REPO, "metrique-writer-core/src/unit.rs")).read()
     src = _strip_comments(raw.split("#[cfg(test)]\nmod tests")[0])
 
